@@ -9,9 +9,10 @@
        to one iteration of [vr_entry] ([vs_entry_action]); what an action leaves is bounded by
        what it was given ([vs_action_bound]); one machine iteration in closed form
        ([vs_run_nil], [vs_run_cons]).
-   NOT proved: the induction that stitches these steps together over the stack (push = recursive
-   call, pop = return, fuel 2*len+2 suffices); whole-run equality stays checked by execution on
-   every case of family dectot. *)
+   The induction that stitches these steps together over the stack (push = recursive call,
+   pop = return, fuel 2*len+2 suffices) is in Msg/ValidateStackRunP.v ([vs_runs], defined at the
+   end of this file, is its invariant); whole-run equality is also checked by execution on every
+   case of family dectot. *)
 From Coq Require Import List Arith NArith ZArith Lia Bool.
 From Coq Require Import ZifyBool ZifyNat ZifyN.
 From PB Require Import Base.PBytes Wire.WireModel Wire.VarintP Wire.ScanP.
